@@ -350,6 +350,22 @@ var c02Templates = []sim.Template{
 		return []*sim.Action{act("login", 0, v, "ok"), act("login", 1, v, "ok"), act("totp_validate", 1, -9, "ok"), act("advance", 1, -9, "", "d", "31s"),
 			act("totp_remove", 1, -9, pickS(s.R, "ok", "recovery")), act("totp_validate", 0, -9, "emptysecret"), act("totp_validate", 0, -9, "ok"), act("visit", 0, -9, "", "route", "/protected/bare")}
 	}},
+	{Name: "blank-code-while-no-code-is-outstanding", F: func(s *sim.Sim) []*sim.Action {
+		// a completed own SMS login (its code is used up), a logout that — the application whitelists
+		// sms_last — keeps the resend stamp, then the victim's password inside the resend limit (no new
+		// code goes out, the session holds none), then whitespace for a code
+		if !s.Cfg.Has2FA("sms") || !s.Cfg.Has("auth") || !s.Cfg.Has("logout") || !inList(s.Cfg.Whitelist, "sms_last") {
+			return nil
+		}
+		x := findAcct(s, func(u *world.User) bool { return u.SMSPhone != "" && u.TOTPSecretKey == "" && u.Confirmed })
+		v := findAcct(s, func(u *world.User) bool { return u.SMSPhone != "" && u.TOTPSecretKey == "" && u.Confirmed }, x)
+		if x < 0 || v < 0 {
+			return nil
+		}
+		b := s.R.Intn(len(s.Br))
+		return []*sim.Action{act("login", b, x, "ok"), act("sms_validate", b, -9, "ok"), act("logout", b, -9, ""), act("advance", b, -9, "", "d", pickS(s.R, "1s", "9s")),
+			act("login", b, v, "ok"), act("sms_validate", b, -9, "blank"), act("sms_validate", b, -9, "empty"), act("sms_validate", b, -9, "blank"), act("visit", b, -9, "", "route", "/protected/bare")}
+	}},
 	{Name: "cross-kind-pending", F: func(s *sim.Sim) []*sim.Action {
 		if len(s.Cfg.TwoFA) < 2 || !s.Cfg.Has("auth") {
 			return nil
@@ -419,6 +435,13 @@ func cfg2FA(c *RunCtx, id string, unit int) (world.Cfg, *sim.Sim, bool) {
 	cfg := randomCfg(r, "auth")
 	if len(cfg.TwoFA) == 0 {
 		cfg.TwoFA = [][]string{{"totp"}, {"sms"}, {"totp", "sms"}, {"sms", "totp"}}[r.Intn(4)]
+	}
+	if unit%4 == 1 {
+		// an application that whitelists the SMS resend stamp (so that a logout does not reset the limit)
+		cfg.Whitelist = []string{"app_theme", "sms_last"}
+		if !cfg.Has("logout") {
+			cfg.Modules = append(cfg.Modules, "logout")
+		}
 	}
 	s, err := sim.New(cfg, r, sim.SeedOpt{Accounts: 4, Browsers: 3, TwoFAProb: 0.75, Unconfirmed: 0.05})
 	if err != nil {
